@@ -98,6 +98,7 @@ pub fn run(ctx: &Ctx) -> Report {
 
         // (a) public values reachable from the keys
         let mut observables: Vec<Observable> = Vec::new();
+        let _ = env::take_captured();
         let ks = KSecretKey::from_str(secret).unwrap();
         let kd = ks.to_kdate(date);
         let kr = kd.to_kregion("us-east-1");
@@ -132,6 +133,26 @@ pub fn run(ctx: &Ctx) -> Report {
         let auth_resp: scratchstack_aws_signature::auth::SigV4AuthenticatorResponse = resp.clone().into();
         push("SigV4AuthenticatorResponse Debug", format!("{:?} {:#?}", auth_resp, auth_resp));
         push("KeyTooLongError", format!("{:?} {}", KSecretKey::<8>::from_str(secret).err(), KSecretKey::<8>::from_str(secret).err().map(|e| e.to_string()).unwrap_or_default()));
+        // key construction that fails (capacity one short, a stray line ending, a much smaller capacity) and the
+        // shortcut derivations: their errors and whatever they log
+        let with_nl = format!("{}\n", secret);
+        let padded = format!("{}{}", secret, "=".repeat(64));
+        push("KeyTooLongError (line ending)", format!("{:?}", KSecretKey::<44>::from_str(&with_nl).map(|_| ())));
+        push("KeyTooLongError (capacity 36)", format!("{:?} {:?}", KSecretKey::<36>::from_str(secret).map(|_| ()), KSecretKey::<36>::from_str(&with_nl).map(|_| ())));
+        push("KeyTooLongError (capacity 0..4)", format!("{:?} {:?} {:?}", KSecretKey::<0>::from_str(secret).map(|_| ()), KSecretKey::<3>::from_str(secret).map(|_| ()), KSecretKey::<4>::from_str(secret).map(|_| ())));
+        push("KeyTooLongError (long input)", format!("{:?} {:?}", KSecretKey::<44>::from_str(&padded).map(|_| ()), KSecretKey::<64>::from_str(&padded).map(|_| ())));
+        let _ = (ks.to_kregion(date, "us-east-1"), ks.to_kservice(date, "us-east-1", "service"), ks.to_ksigning(date, "us-east-1", "service"), kd.to_kservice("us-east-1", "service"), kd.to_ksigning("us-east-1", "service"), kr.to_ksigning("service"));
+        let recs = env::take_captured();
+        let mut text = String::new();
+        for (lvl, target, msg) in &recs {
+            if *lvl <= log::Level::Debug {
+                text.push_str(&format!("{} {}: {}\n", lvl, target, msg));
+            } else {
+                trace_records += 1;
+            }
+        }
+        searched_records += recs.len() as u64;
+        push("log records (>= debug) during key construction, refusal and derivation", text);
         drop(push);
 
         // (b) every request class x provider outcome: error renderings, intermediate values, log records
@@ -302,7 +323,7 @@ pub fn run(ctx: &Ctx) -> Report {
     st.sample(0, 1, || json!({"observables": ["error Display/Debug", "key types Debug/Display", "provider request/response Debug", "CanonicalRequest/AuthParams/SigV4Authenticator Debug", "log records >= debug"], "needles_per_secret": n_needles / 3}));
     Report {
         stats: st,
-        rule: "3 secrets x 47 request classes (one per stage of the documented order on each carrier, valid, wrong signature, and presented signatures of 7 unusual shapes: truncated, empty, extended, doubled, upper-case, non-hex) x 5 provider outcomes (key, wrong key, ExpiredToken, io error, private error type); observables: the returned error's Display and Debug, the response Debug, Debug/Display (plain and alternate) of the five key types, GetSigningKeyRequest/Response, SigV4AuthenticatorResponse, CanonicalRequest, AuthParams, SigV4Authenticator, and every log record at level >= Debug captured by the harness logger (Trace records counted, not searched); needles: secret, AWS4+secret, kDate, kRegion, kService, kSigning, each raw, hex, HEX, base64, base64url, as a decimal byte list and ascii-escaped, plus the correct signature of each refused request that did not present it. states = (class, provider, outcome)".into(),
+        rule: "3 secrets x 47 request classes (one per stage of the documented order on each carrier, valid, wrong signature, and presented signatures of 7 unusual shapes: truncated, empty, extended, doubled, upper-case, non-hex) x 5 provider outcomes (key, wrong key, ExpiredToken, io error, private error type); observables: the returned error's Display and Debug, the response Debug, Debug/Display (plain and alternate) of the five key types, GetSigningKeyRequest/Response, SigV4AuthenticatorResponse, CanonicalRequest, AuthParams, SigV4Authenticator, KeyTooLongError from five refused constructions (capacity one short, stray line ending, capacities 0/3/4/36, long input), and every log record at level >= Debug captured by the harness logger during validation and during key construction / refusal / derivation (Trace records counted, not searched); needles: secret, AWS4+secret, kDate, kRegion, kService, kSigning, each raw, hex, HEX, base64, base64url, as a decimal byte list and ascii-escaped, plus the correct signature of each refused request that did not present it. states = (class, provider, outcome)".into(),
         bounds: json!({"secrets": 3, "classes": classes.len(), "provider_outcomes": 5}),
         exhaustive: true,
         assumptions: vec!["needles shorter than 16 bytes are not searched (accidental matches)".into()],
